@@ -6,7 +6,7 @@
     identity on bit patterns; every NaN is canonicalised to 0x7FF8000000000000. *)
 From Coq Require Import ZArith List Bool Lia Arith.
 From ChibiV Require Import C08.Datum C08.CSem C08.Tables Gen.C08_Tables Gen.C08_Leaf C08.Write C08.Read
-  C08.Model3 C08.FloSpec C08.Proofs C08.CharProofs C08.CompoundProofs.
+  C08.Model3 C08.Model4 C08.FloSpec C08.Proofs C08.CharProofs C08.CompoundProofs.
 Import ListNotations.
 Local Open Scope Z_scope.
 Ltac Zify.zify_post_hook ::= Z.div_mod_to_equations.
@@ -338,10 +338,28 @@ Theorem datum_roundtrip_flonums_ok :
   read_raw (dec2flo_strtod strtod fmt_0f i2d old_arith) f (write fmt_g scan_g d ++ rest) = Ok (TDatum d) rest.
 Proof.
   intros fmt_g scan_g strtod fmt_0f i2d old_arith libc d f rest Hw Hf Hd.
+  rewrite <- write_gen_native.
   apply (datum_roundtrip_gen fmt_g scan_g _ flo_leaf_ok); try assumption.
-  intros b [Hb Hc] f' rest' Hd'.
-  rewrite (flonum_roundtrip_given_ok fmt_g scan_g strtod fmt_0f i2d old_arith libc b f' rest' Hb Hd').
-  unfold flo_canon. destruct (Z.eqb_spec (flo_class b) 3); [contradiction|reflexivity].
+  - intros b [Hb Hc] f' rest' Hd'.
+    rewrite (flonum_roundtrip_given_ok fmt_g scan_g strtod fmt_0f i2d old_arith libc b f' rest' Hb Hd').
+    unfold flo_canon. destruct (Z.eqb_spec (flo_class b) 3); [contradiction|reflexivity].
+  - intros c Hc f' rest' Hd'. apply char_roundtrip_native; assumption.
+Qed.
+
+(** round 4: the same for the library writer's text ((scheme write) prints a flonum with
+    (display (number->string x)), the text of sexp_write_one's flonum arm) *)
+Theorem scheme_write_roundtrip_flonums_ok :
+  forall fmt_g scan_g strtod fmt_0f i2d old_arith, libc_flonum fmt_g scan_g strtod fmt_0f i2d ->
+  forall d f rest, wfd flo_leaf_ok d -> (height d + 2 <= f)%nat -> at_delim rest = true ->
+  read_raw (dec2flo_strtod strtod fmt_0f i2d old_arith) f (swrite fmt_g scan_g d ++ rest) = Ok (TDatum d) rest.
+Proof.
+  intros fmt_g scan_g strtod fmt_0f i2d old_arith libc d f rest Hw Hf Hd. unfold swrite.
+  apply (datum_roundtrip_gen fmt_g scan_g _ flo_leaf_ok); try assumption.
+  - intros b [Hb Hc] f' rest' Hd'.
+    rewrite (flonum_roundtrip_given_ok fmt_g scan_g strtod fmt_0f i2d old_arith libc b f' rest' Hb Hd').
+    unfold flo_canon. destruct (Z.eqb_spec (flo_class b) 3); [contradiction|reflexivity].
+  - intros c Hc f' rest' Hd'. apply char_roundtrip_library; assumption.
 Qed.
 Print Assumptions flonum_roundtrip_given_ok.
 Print Assumptions datum_roundtrip_flonums_ok.
+Print Assumptions scheme_write_roundtrip_flonums_ok.
